@@ -69,7 +69,7 @@ INFO = {
    "Trusted base: step hook as scheduling points; race detector for unsynchronised accesses inside built-ins."),
 }
 
-BUILT = ["C01", "C03", "C04", "C05", "C06", "C09", "C11", "C12", "C13", "C14", "C15", "C16", "C17", "C18", "C19", "C20"]
+BUILT = ["C01", "C02", "C03", "C04", "C05", "C06", "C07", "C08", "C09", "C10", "C11", "C12", "C13", "C14", "C15", "C16", "C17", "C18", "C19", "C20"]
 NOT_YET = "check not built yet in this session (machinery under construction); not claimed until it runs clean on the unchanged tree"
 
 def main():
